@@ -22,6 +22,7 @@ from pyvc.values import (Obj, SSeq, Unsupported, Value, concrete, fresh_int, to_
                          z_or, zbool)
 from theories import strings as STR
 from theories import structs as ST
+from theories import trees as TR
 
 DN = 'furax._base.dense'
 CLS = f'{DN}.DenseBlockDiagonalOperator'
@@ -32,6 +33,7 @@ def theory():
     T = Theory()
     ST.install(T)
     STR.install(T, modules=[DN])
+    TR.install(T)
     return T
 
 
@@ -127,6 +129,19 @@ def pure(obs, n0):
     return obs
 
 
+def one_comma_one_arrow(a, n, p, w):
+    """the string (a, n) is  l , r -> t  with its only comma at p and the only arrow after it at w"""
+    q = fresh_int('q')
+
+    def arrow(i):
+        return z3.And(i >= 0, i + 2 <= n, a[i] == MINUS, a[i + 1] == GT)
+    return z3.And(0 <= p, p < n, a[p] == COMMA,
+                  z3.ForAll([q], z3.Implies(z3.And(0 <= q, q < n, a[q] == COMMA), q == p)),
+                  p < w, arrow(w),
+                  # positions after the comma are written p + 1 + q (the coordinates of the text after the comma)
+                  z3.ForAll([q], z3.Implies(z3.And(q >= 0, arrow(q + p + 1)), q + p + 1 == w)))
+
+
 def swap(c, f, x):
     x = to_z3(x)
     return z3.If(x == c, f, z3.If(x == f, c, x))
@@ -158,6 +173,8 @@ def _build(ck):
     ck.trust('lemma:LA10 einsum adjoint criterion: (L2,R2,S2) denotes the adjoint of einsum(L,R->S)(A, .) iff a '
              'bijection sigma of labels has sigma(L2)=L, sigma(R2)=S, sigma(S2)=R position-wise (here sigma = swap '
              'of the contracted and the free block letter, R2=R, S2=S)')
+    ck.trust('lemma:LA10-struct: with the same blocks, the rewritten subscripts and outs(o) as input structure, the '
+             'output structure is ins(o) when the ellipsis dimensions of the blocks do not enlarge those of the input')
     ck.assume_note('C14: well-formed subscripts = terms made of ASCII letters with at most one "..." each, exactly '
                    'one "," and one "->" (the class of strings the property quantifies over)')
 
@@ -167,16 +184,7 @@ def _build(ck):
         s = str_input(S, 'subscripts')
         a, n = s.arr, to_z3(s.length)
         out = S.call(S.func(f'{CLS}._parse_subscripts'), [s])
-        q = fresh_int('q')
-
-        def arrow(p):
-            return z3.And(p >= 0, p + 2 <= n, a[p] == MINUS, a[p + 1] == GT)
-
-        def shape(p, w):
-            """the string is  l , r -> t  with its only comma at p and the only arrow after it at w"""
-            return z3.And(0 <= p, p < n, a[p] == COMMA,
-                          z3.ForAll([q], z3.Implies(z3.And(0 <= q, q < n, a[q] == COMMA), q == p)),
-                          p < w, arrow(w), z3.ForAll([q], z3.Implies(z3.And(q > p, arrow(q)), q == w)))
+        shape = lambda p, w: one_comma_one_arrow(a, n, p, w)
         if out.raised('ValueError'):
             p, w = fresh_int('p'), fresh_int('w')
             S.oblige('exc', z3.Not(z3.Exists([p, w], shape(p, w))),
@@ -262,3 +270,187 @@ def _build(ck):
                                Sr.forall(lambda k, e: g(nL + nR + 3 + to_z3(k)) == to_z3(e))), tag='arrow-then-S2=S')
         S.oblige('post', relabels, tag='sigma(S)=R-position-wise')
     ck.explore(f'{CLS}._get_transposed_subscripts', gts, T)
+
+    # ------------------------------------------------------------------ __init__ (any string without spaces)
+    def blocks_input(S):
+        """blocks: one array, or a pytree with any number of array leaves; returns (value, all leaves have ndim >= 2)"""
+        if S.choose(2) == 0:
+            b = ST.LeafV(z3.Const('blocks', ST.Leaf))
+            S.inputs['blocks_ndim'] = ST.f_ndim(b.term)
+            return b, ST.f_ndim(b.term) >= 2
+        leaves = S.seq('block_leaves', kind='list', sort=ST.Leaf, wrap=ST.LeafV)
+        return ST.StructV(leaves), leaves.forall(lambda k, e: ST.f_ndim(e.term) >= 2)
+
+    def init_general(S):
+        S.oracle = {'name': 'mv'}
+        s = str_input(S, 'subscripts')
+        a, n = s.arr, to_z3(s.length)
+        S.assume(s.forall(lambda k, e: to_z3(e) != SPACE))
+        blocks, ranks_ok = blocks_input(S)
+        ins = ST.LeafV(z3.Const('in_structure', ST.Leaf))
+        o = Obj(P.cls('DenseBlockDiagonalOperator'))
+        out = S.call(S.func(f'{CLS}.__init__'), [o, blocks, ins, s])
+        p, w = fresh_int('p'), fresh_int('w')
+        parses = z3.Exists([p, w], one_comma_one_arrow(a, n, p, w))
+        if out.raised('ValueError'):
+            S.oblige('exc', z3.Not(z3.And(ranks_ok, parses)),
+                     tag='ValueError-only-for-blocks-of-rank<2-or-subscripts-without-one-comma-and-one-arrow')
+        elif out.normal:
+            S.oblige('exc', ranks_ok, tag='accepts-only-blocks-of-rank>=2')
+            # witness of `parses`: the term boundaries found by a ghost run of the (separately verified) parser
+            g = S.call(S.func(f'{CLS}._parse_subscripts'), [s])
+            if g.normal:
+                pw = to_z3(g.value[0].length)
+                S.oblige('exc', one_comma_one_arrow(a, n, pw, pw + 1 + to_z3(g.value[1].length)),
+                         tag='accepts-only-subscripts-with-one-comma-and-one-arrow')
+            else:
+                S.oblige('exc', False, tag='accepts-only-subscripts-with-one-comma-and-one-arrow')
+            S.oblige('post', z_and(o.fields.get('blocks') is blocks, o.fields.get('_in_structure') is ins),
+                     tag='blocks-and-input-structure-stored')
+            st = o.fields.get('subscripts')
+            S.oblige('post', isinstance(st, SSeq) and st.kind == 'str' and z_eq(st, s),
+                     tag='subscripts-stored-unchanged-when-they-hold-no-space')
+        else:
+            S.oblige('exc', False, tag=f'undeclared-{out.value.name}')
+    ck.explore(f'{CLS}.__init__', init_general, T)
+
+    # ------------------------------------------------------------------ __init__ (well-formed strings with spaces)
+    def init_spaces(S):
+        S.oracle = {'name': 'mv'}
+        G = Subs(S)
+        v = S.choose(3)
+        spaced = [STR.pstr(' ', G.L, ' , ', G.R, ' ->  ', G.Sr, ' '),
+                  STR.pstr(G.L, ', ', G.R, '->', G.Sr),
+                  STR.pstr(*[x for pc in G.L.pieces for x in ((''.join(map(chr, pc)) if isinstance(pc, list) else pc), ' ')],
+                           ',', G.R, ' ', '->', ' ', G.Sr)][v]
+        S.inputs['spacing'] = v
+        blocks = ST.LeafV(z3.Const('blocks', ST.Leaf))
+        S.assume(ST.f_ndim(blocks.term) >= 2)
+        ins = ST.LeafV(z3.Const('in_structure', ST.Leaf))
+        o = Obj(P.cls('DenseBlockDiagonalOperator'))
+        out = S.call(S.func(f'{CLS}.__init__'), [o, blocks, ins, spaced])
+        S.oblige('exc', out.normal, tag='well-formed-subscripts-with-spaces-accepted')
+        if out.normal:
+            st = o.fields.get('subscripts')
+            S.oblige('post', isinstance(st, SSeq) and st.kind == 'str' and z_eq(st, G.s), tag='spaces-removed-nothing-else')
+    ck.explore(f'{CLS}.__init__', init_spaces, T, label='spaces')
+
+    # ------------------------------------------------------------------ transpose
+    def transpose(S):
+        S.oracle = {'name': 'structures'}
+        G = Subs(S)
+        blocks = ST.LeafV(z3.Const('blocks', ST.Leaf))
+        S.assume(ST.f_ndim(blocks.term) >= 2)              # class invariant (constructor scenario)
+        ins = ST.LeafV(z3.Const('in_structure', ST.Leaf))
+        outs = ST.LeafV(z3.Const('out_structure', ST.Leaf))
+        o = S.new('DenseBlockDiagonalOperator', blocks=blocks, _in_structure=ins, subscripts=G.s)
+        log = {'gts_args': [], 'gts_raised': False, 'outs_calls': 0, 't': None}
+
+        def gts_contract(interp, fi, args, kwargs):
+            """contract of _get_transposed_subscripts, proved by scenario `gts` (posts same-length, L2-is-sigma(L),
+            comma-then-R2=R, arrow-then-S2=S, existence/uniqueness of c and f) for inputs outside the open finding's
+            class"""
+            run = interp.run
+            log['gts_args'].append(args[-1])
+            if run.decide(2) == 0:
+                log['gts_raised'] = True
+                interp.raise_('ValueError')
+            c, f = fresh_int('c'), fresh_int('f')
+            run.assume(z3.And(G.contracted(c), G.free(f)))
+            new_l = []
+            for pc in G.L.pieces:
+                if isinstance(pc, list):
+                    new_l.append(pc)
+                    continue
+                q = SSeq.fresh('L2', kind='str', length=pc.length)
+                run.assume(q.forall(lambda k, e: to_z3(e) == swap(c, f, pc.get(k))))
+                run.assume(q.forall(lambda k, e: STR.letter(e)))     # implied: c, f and the characters of pc are letters
+                q.charset = 'letters'
+                new_l.append(q)
+            log['t'] = STR.PStr(new_l + [[COMMA]] + G.R.pieces + [[MINUS, GT]] + G.Sr.pieces)
+            return log['t']
+
+        def outs_contract(interp, fi, args, kwargs):
+            log['outs_calls'] += 1
+            return outs
+        S.I.contracts = {f'{CLS}._get_transposed_subscripts': gts_contract,
+                         'furax._base.core.AbstractLinearOperator.out_structure': outs_contract}
+        out = S.call(S.I.getattr(o, 'transpose'), [])
+        if out.raised('ValueError'):
+            S.oblige('exc', log['gts_raised'], tag='ValueError-only-from-the-subscript-rewriting')
+            return
+        if not out.normal:
+            S.oblige('exc', False, tag=f'undeclared-{out.value.name}')
+            return
+        t = out.value
+        ok = isinstance(t, Obj) and t.cls.name == 'DenseBlockDiagonalOperator'
+        S.oblige('post', bool(ok), tag='transpose-is-a-dense-block-diagonal-operator')
+        if not ok:
+            return
+        S.oblige('post', len(log['gts_args']) == 1 and log['gts_args'][0] is G.s,
+                 tag='subscripts-rewritten-from-own-subscripts')
+        S.oblige('post', t.fields.get('blocks') is blocks, tag='same-blocks')
+        S.oblige('post', t.fields.get('_in_structure') is outs and log['outs_calls'] == 1,
+                 tag='input-structure-is-own-output-structure')
+        st = t.fields.get('subscripts')
+        subs_ok = isinstance(st, SSeq) and z_eq(st, log['t'])
+        S.oblige('post', subs_ok, tag='subscripts-are-the-rewritten-ones')
+        # struct facet: outs(o.T) = ins(o).  Lemma instance (LA10, structure part): an operator built from the SAME
+        # blocks, the rewritten subscripts and outs(o) as input structure has output structure ins(o) PROVIDED the
+        # ellipsis dimensions of the blocks do not enlarge those of the input (einsum broadcasts `...`).  Nothing in
+        # the constructor or in transpose() establishes that proviso: finding C14-ellipsis-broadcasts-input.
+        wired = (t.fields.get('blocks') is blocks and t.fields.get('_in_structure') is outs and isinstance(st, SSeq))
+        same = z3.Bool('outs(o.T)==ins(o)')
+        enlarges = z3.Bool('ellipsis-dims-of-blocks-enlarge-the-input')
+        S.inputs['ellipsis_enlarges_input'] = enlarges
+        S.assume(z3.Implies(z3.And(z3.Not(enlarges), z3.BoolVal(bool(wired))), same))
+        cls_ = S.choose(2)
+        S.assume(enlarges if cls_ else z3.Not(enlarges))
+        for ob in S.oblige('post', same, exact=False, tag='struct:outs(o.T)==ins(o)',
+                           finding='C14-ellipsis-broadcasts-input' if cls_ else None,
+                           oracle={'name': 'broadcast_input' if cls_ else 'structures'}):
+            ob.hyps = ob.hyps[-2:]          # the lemma instance and the class; the wiring facts are the posts above
+    ck.explore(f'{CLS}.transpose', transpose, T)
+
+    # ------------------------------------------------------------------ mv
+    def mv(S):
+        S.oracle = {'name': 'mv'}
+        subs = str_input(S, 'subscripts')
+        ins = ST.LeafV(z3.Const('in_structure', ST.Leaf))
+        case = S.choose(3)
+        S.inputs['case'] = ['single leaf', 'shared blocks', 'per-leaf blocks'][case]
+        if case == 0:
+            blocks = ST.LeafV(z3.Const('blocks', ST.Leaf))
+            x = ST.LeafV(z3.Const('x', ST.Leaf))
+        else:
+            xs = S.seq('x_leaves', kind='list', sort=ST.Leaf, wrap=ST.LeafV)
+            x = ST.StructV(xs)
+            if case == 1:
+                blocks = ST.LeafV(z3.Const('blocks', ST.Leaf))
+            else:
+                bs = S.seq('block_leaves', kind='list', sort=ST.Leaf, wrap=ST.LeafV)
+                blocks = ST.StructV(bs, treedef=x.treedef)
+                S.assume(z_eq(bs.length, xs.length))        # blocks and input: same pytree structure (requires)
+        o = S.new('DenseBlockDiagonalOperator', blocks=blocks, _in_structure=ins, subscripts=subs)
+        out = S.call(S.I.getattr(o, 'mv'), [x])
+        if not out.normal:
+            S.oblige('exc', False, tag=f'no-exception-{out.value.name}')
+            return
+        r = out.value
+
+        def is_einsum(v, b, leaf):
+            return isinstance(v, TR.EinsumV) and v.args[0] is subs and z_eq(v.args[1], b) and z_eq(v.args[2], leaf)
+        if case == 0:
+            S.oblige('post', is_einsum(r, blocks, x), tag='einsum(subscripts, blocks, x)')
+            return
+        ok = isinstance(r, ST.StructV)
+        S.oblige('post', bool(ok), tag='result-is-a-pytree')
+        if not ok:
+            return
+        S.oblige('post', z_and(z_eq(r.treedef, x.treedef), z_eq(r.leaves.length, xs.length)), tag='same-tree-structure-as-x')
+        k = fresh_int('k')
+        S.assume(z3.And(0 <= k, k < to_z3(xs.length)))       # generic leaf position
+        rk = r.leaves.get(k)
+        S.oblige('post', is_einsum(rk, blocks if case == 1 else blocks.leaves.get(k), xs.get(k)),
+                 tag='every-leaf-is-einsum(subscripts, blocks%s, leaf)' % ('' if case == 1 else '[leaf]'))
+    ck.explore(f'{CLS}.mv', mv, T)
